@@ -95,6 +95,12 @@ def directed_histories():
             NH("local mode: sibling directories", [R({"local": "apps/a1"}), R({"local": "apps/a2"}), R({"local": "apps/a1"})]),
             NH("local mode: root, then nested, then global", [R({"local": "."}), R({"local": "apps/a2"}), R({}), R({"local": "apps/a2"})]),
             NH("local mode: nested directory with a builder selection after its parent", [R({"local": "apps"}), R({"local": "apps/a1", "builders": ["b1"]})])]
+    # a file the project lists (subdirs: / includes:) is missing, then appears (and goes again): a run with the file
+    # missing fails and leaves no cache that a later run could accept
+    nt_missing = {k: v for k, v in nt.items() if k != "apps/a2/laze.yml"}
+    out += [NH("a listed subdir's file is missing, then appears", [dict(op="edit", tree=nt_missing), R({}), E(nt), R({})]),
+            NH("a listed subdir's file disappears after a run and comes back", [R({}), E(nt_missing), R({}), E(nt), R({})]),
+            NH("a listed subdir's file is missing in local mode, then appears", [dict(op="edit", tree=nt_missing), R({"local": "apps"}), E(nt), R({"local": "apps"})])]
     # a project whose ninja file is larger than the writer's buffer (8 KiB): a run killed while writing has part of
     # its output on disk already; whatever file that is, a later, much shorter generation must not inherit its tail
     wmods = [{"name": "w%d" % i, "sources": ["w%d_%d.c" % (i, j) for j in range(4)]} for i in range(6)]
